@@ -12,9 +12,16 @@ pub open spec fn cyvs(s: Seq<FixtureCycle>) -> Seq<CycV> { s.map_values(|c: Fixt
 pub assume_specification[ <FixtureCycle as Clone>::clone ](a: &FixtureCycle) -> (r: FixtureCycle)
     ensures cyv(&r) == cyv(a);
 
-/// `<[T]>::to_vec`: a vector of clones, element by element (vstd's `cloned` = "what T::clone ensures")
-pub assume_specification<T: Clone>[ <[T]>::to_vec ](s: &[T]) -> (r: Vec<T>)
-    ensures r@.len() == s@.len(), forall|i: int| 0 <= i < s@.len() ==> cloned::<T>(#[trigger] s@[i], r@[i]);
+// ---- T5 wrapper: `<[String]>::to_vec` (`.to_vec(` is renamed to `.vp_to_vec(`; the external body IS the call
+// to the real method): a vector of clones, element by element — stated on the contents, which is all a String
+// clone preserves observably.
+pub trait VpStringSliceExt { fn vp_to_vec(&self) -> (r: Vec<String>); }
+impl VpStringSliceExt for [String] {
+    #[verifier::external_body]
+    fn vp_to_vec(&self) -> (r: Vec<String>)
+        ensures r@.len() == self@.len(), strs_v(r@) == strs_v(self@),
+    { self.to_vec() }
+}
 
 /// `slice.iter().position(p)`: index of the first element p accepts; None iff p rejects every element
 pub assume_specification<'a, T, P: FnMut(&'a T) -> bool>[ <core::slice::Iter<'a, T> as Iterator>::position ](it: &mut core::slice::Iter<'a, T>, p: P) -> (r: Option<usize>)
@@ -37,7 +44,8 @@ impl<'a, T: 'a + Clone, I: Iterator<Item = &'a T>> VpClonedExt<'a, T> for I {
     fn vp_cloned(self) -> (r: std::vec::IntoIter<T>)
         ensures r.obeys_prophetic_iter_laws(), r.decrease() is Some,
             r.remaining().len() == self.remaining().len(),
-            forall|i: int| 0 <= i < r.remaining().len() ==> cloned::<T>(*#[trigger] self.remaining()[i], r.remaining()[i]),
+            forall|i: int| #![trigger r.remaining()[i]] #![trigger self.remaining()[i]]
+                0 <= i < r.remaining().len() ==> cloned::<T>(*self.remaining()[i], r.remaining()[i]),
     { self.cloned().collect::<Vec<T>>().into_iter() }
 }
 
